@@ -488,3 +488,17 @@ pub fn epoll_ready(epfd: RawFd) -> usize {
         n as usize
     }
 }
+
+/// CPU time (utime + stime, clock ticks of 10 ms) a thread of this process has consumed. A
+/// logical measure of work done, independent of how loaded the machine is.
+pub fn thread_cpu_ticks(tid: i32) -> u64 {
+    let Ok(s) = std::fs::read_to_string(format!("/proc/self/task/{tid}/stat")) else { return 0 };
+    let Some(r) = s.rfind(')') else { return 0 };
+    let f: Vec<&str> = s[r + 1..].split_whitespace().collect();
+    // after the command: state is field 0; utime/stime are fields 11 and 12
+    let g = |i: usize| f.get(i).and_then(|x| x.parse::<u64>().ok()).unwrap_or(0);
+    g(11) + g(12)
+}
+
+/// Ticks of CPU a call may burn after its input ended before it is declared to be spinning.
+pub const SPIN_TICKS: u64 = 150;
